@@ -49,9 +49,13 @@ const URLS: &[&str] = &[
     "dbname=d port=99999",
     "dbname='unterminated",
     "postgres://u@h/db?connect_timeout=abc",
+    "postgres://u@h/%20",
+    "dbname=' '",
+    "postgres://u@h/db?connect_timeout=30&load_balance_hosts=random&keepalives=0&sslmode=require",
+    "dbname=d hostaddr=10.0.0.1,10.0.0.2 host=a,b port=1",
 ];
 
-const TEXTS: &[&str] = &["", "plain", "n\u{f6}n-\u{e4}scii\u{1F600}", "with space", "quo'te", "a=b", "back\\slash", "/abs/path", "x"];
+const TEXTS: &[&str] = &["", "plain", "n\u{f6}n-\u{e4}scii\u{1F600}", "with space", "quo'te", "a=b", "back\\slash", "/abs/path", "x", " ", "\t", "\u{a0}", " padded ", "0", "null", "%20"];
 const HOSTS: &[&str] = &["h", "example.org", "/var/run/sock", "10.0.0.1", "", "h\u{f6}st"];
 
 fn opt<T>(rng: &mut Rng, f: impl FnOnce(&mut Rng) -> T) -> Option<T> {
@@ -93,7 +97,7 @@ pub fn gen_config(rng: &mut Rng) -> Config {
     c.hostaddrs = opt(rng, |r| (0..r.usize_below(3)).map(|_| ip(r)).collect());
     c.port = opt(rng, |r| *r.pick(&[0u16, 1, 5432, 65535]));
     c.ports = opt(rng, |r| (0..r.usize_below(3)).map(|_| *r.pick(&[0u16, 1, 5432, 65535])).collect());
-    let dur = |r: &mut Rng| Duration::new(*r.pick(&[0u64, 1, 30, u32::MAX as u64]), *r.pick(&[0u32, 1, 999_999_999]));
+    let dur = |r: &mut Rng| Duration::new(*r.pick(&[0u64, 0, 1, 30, u32::MAX as u64]), *r.pick(&[0u32, 1, 1_000_000, 500_000_000, 999_999_999]));
     c.connect_timeout = opt(rng, dur);
     c.keepalives = opt(rng, |r| r.chance(1, 2));
     c.keepalives_idle = opt(rng, dur);
